@@ -158,6 +158,11 @@ impl ConditionEvaluatorBuilder {
     }
 
     pub fn add_special_fields(&mut self, plan: &QueryPlan) {
+        self.add_event_type_condition(plan);
+        self.add_scope_conditions(plan);
+    }
+
+    fn add_event_type_condition(&mut self, plan: &QueryPlan) {
         if let Command::Query { event_type, .. } = &plan.command {
             if event_type != "*" {
                 info!(
@@ -171,7 +176,10 @@ impl ConditionEvaluatorBuilder {
                 );
             }
         }
+    }
 
+    /// Conditions for FOR <context> and SINCE <time>.
+    fn add_scope_conditions(&mut self, plan: &QueryPlan) {
         if let Some(context_id) = plan.context_id() {
             info!(
                 target: "sneldb::evaluator",
@@ -234,6 +242,34 @@ impl ConditionEvaluatorBuilder {
         } else {
             info!(target: "sneldb::evaluator", "Skipping special-field conditions for aggregation plan");
         }
+        builder.into_evaluator()
+    }
+
+    /// Evaluator for the rows of candidate zones. In aggregation mode the projection does not
+    /// load the event_type column (the rows of a candidate zone all belong to the plan's event
+    /// type), but it loads the context / time column whenever FOR / SINCE is present, so those
+    /// two conditions apply in every mode.
+    pub fn build_for_zone_rows(plan: &QueryPlan) -> ConditionEvaluator {
+        let mut builder = ConditionEvaluatorBuilder::new();
+        if let Some(where_clause) = plan.where_clause() {
+            builder.add_where_clause(where_clause);
+        }
+        if plan.aggregate_plan.is_none() {
+            builder.add_special_fields(plan);
+        } else {
+            builder.add_scope_conditions(plan);
+        }
+        builder.into_evaluator()
+    }
+
+    /// Evaluator for complete events (memtable and passive buffers): every event carries its
+    /// type, context and timestamp, so all special-field conditions apply in every mode.
+    pub fn build_for_events(plan: &QueryPlan) -> ConditionEvaluator {
+        let mut builder = ConditionEvaluatorBuilder::new();
+        if let Some(where_clause) = plan.where_clause() {
+            builder.add_where_clause(where_clause);
+        }
+        builder.add_special_fields(plan);
         builder.into_evaluator()
     }
 }
